@@ -5,7 +5,7 @@ OUT=${MATRIX_OUT:-/verif/seeded/MATRIX.txt}
 : > $OUT.tmp
 for d in /verif/seeded/${1:-*}/; do
   s=$(basename $d); [ -f $d/patch.diff ] || continue
-  c=$(echo $s | sed -E 's/^(R[0-9])?(C[0-9]+)-.*/\2/')
+  c=$(echo $s | sed -E 's/^(R[0-9]+)?(C[0-9]+)-.*/\2/')
   r=$(/verif/tools/seed_check_copy.sh $d $c 2>&1 | grep -v WARNING)
   if echo "$r" | grep -q "VIOLATION.*no-failing-input-found"; then v=nfi
   elif echo "$r" | grep -q "VIOLATION"; then v=witness
